@@ -5,14 +5,93 @@ is shared.  Results are returned in task order, so reports do not depend on sche
 from __future__ import annotations
 
 import multiprocessing as mp
+import mmap
 import os
 import random
 import resource
+import struct
 
 PROCS = int(os.environ.get("VERIF_PROCS", "0")) or min(16, os.cpu_count() or 1)
 
+# ---- watchdog ----------------------------------------------------------------------------------------------------
+# A change can make the implementation hang inside ONE C-level call (an arbitrary-precision conversion, a regular
+# expression): no Python-level budget sees that, and a check that never exits decides nothing.  Every worker owns a
+# record in a shared map: (start of its task, last heart beat, task index, text of the case in hand).  The parent polls;
+# a worker whose beat is older than CASE_LIMIT seconds of real time (explorers that call beat() before every
+# evaluation) or whose task runs longer than TASK_LIMIT is killed and reported as a violation of kind "hang".
+CASE_LIMIT = float(os.environ.get("VERIF_CASE_LIMIT", "45"))
+TASK_LIMIT = float(os.environ.get("VERIF_TASK_LIMIT", "0")) or None  # set by run.py according to the tier
+_REC = 1024
+_mm = None
+_slot = None
 
-def _init() -> None:
+
+def _now() -> float:
+    from mc import vclock
+
+    return vclock.real("time")()
+
+
+def _write(start=None, beat=None, idx=None, case=None) -> None:
+    if _mm is None or _slot is None:
+        return
+    off = _slot * _REC
+    if start is not None:
+        _mm[off:off + 8] = struct.pack("d", start)
+    if beat is not None:
+        _mm[off + 8:off + 16] = struct.pack("d", beat)
+    if idx is not None:
+        _mm[off + 16:off + 24] = struct.pack("q", idx)
+    if case is not None:
+        b = case if isinstance(case, bytes) else str(case).encode("utf-8", "replace")
+        b = b[:_REC - 32]
+        _mm[off + 24:off + 26] = struct.pack("H", len(b))
+        _mm[off + 26:off + 26 + len(b)] = b
+
+
+def beat(case) -> None:
+    """Called by an explorer right before it hands `case` to the implementation."""
+    _write(beat=_now(), case=case)
+
+
+def _read(slot):
+    off = slot * _REC
+    start, bt = struct.unpack("dd", _mm[off:off + 16])
+    idx, = struct.unpack("q", _mm[off + 16:off + 24])
+    n, = struct.unpack("H", _mm[off + 24:off + 26])
+    return start, bt, idx, bytes(_mm[off + 26:off + 26 + n]).decode("utf-8", "replace")
+
+
+def run_with_deadline(fn, seconds: float) -> str:
+    """fn() in a forked child: 'ok', 'timeout' (killed after `seconds` of real time) or 'crashed'.  For replays of hangs."""
+    import signal
+    import time as _t
+
+    pid = os.fork()
+    if pid == 0:
+        try:
+            fn()
+            os._exit(0)
+        except BaseException:  # noqa: BLE001
+            os._exit(3)
+    t0 = _now()
+    while True:
+        done, st = os.waitpid(pid, os.WNOHANG)
+        if done:
+            return "ok" if os.WIFEXITED(st) and os.WEXITSTATUS(st) == 0 else "crashed"
+        if _now() - t0 > seconds:
+            os.kill(pid, signal.SIGKILL)
+            os.waitpid(pid, 0)
+            return "timeout"
+        _t.sleep(0.05)
+
+
+def _init(counter=None) -> None:
+    global _slot
+    if counter is not None:
+        with counter.get_lock():
+            _slot = counter.value
+            counter.value += 1
     # address-space backstop (DESIGN 3.9): a runaway allocation kills the worker, not the sandbox
     lim = 6 << 30
     try:
@@ -50,15 +129,21 @@ def _call(arg):
     from mc import core
 
     # the logging configuration is part of the environment: odd tasks run with DEBUG logging and a formatting handler
-    dbg = ((idx * 2654435761 + 0x9E3779B9) >> 9) & 1  # decorrelated from the structure of the task list
+    h = (idx * 2654435761 + 0x9E3779B9) >> 9  # decorrelated from the structure of the task list
+    dbg = h & 1
     core.set_logging("debug" if dbg else "off")
+    core.set_ambient(lowprec=bool(h & 2), dst_zone=bool(h & 4))
     from mc import vclock
 
     vclock.reset()
+    t = _now()
+    _write(start=t, beat=0.0, idx=idx, case=b"")
     try:
         res = _guard(fn, task)
     finally:
         core.set_logging("off")
+        core.set_ambient(False, False)
+        _write(start=0.0, beat=0.0)
     if hasattr(res, "c"):
         res.c["tasks_logging_" + ("debug" if dbg else "off")] = res.c.get("tasks_logging_" + ("debug" if dbg else "off"), 0) + 1
     return idx, res
@@ -70,13 +155,56 @@ def pmap(fn, tasks, seed: int = 0, procs: int | None = None):
     `seed` only permutes the order in which tasks are handed to workers."""
     tasks = list(tasks)
     n = procs or PROCS
-    if n <= 1 or len(tasks) <= 1:
+    global _mm
+    if n <= 1 or not tasks:
         return [_call((i, fn, t))[1] for i, t in enumerate(tasks)]
     order = list(range(len(tasks)))
     random.Random(seed).shuffle(order)
     out = [None] * len(tasks)
     ctx = mp.get_context("fork")
-    with ctx.Pool(min(n, len(tasks)), initializer=_init) as pool:
-        for idx, res in pool.imap_unordered(_call, [(i, fn, tasks[i]) for i in order], chunksize=1):
-            out[idx] = res
+    nw = min(n, len(tasks))
+    _mm = mmap.mmap(-1, _REC * nw)
+    counter = ctx.Value("i", 0)
+    hung = None
+    pool = ctx.Pool(nw, initializer=_init, initargs=(counter,))
+    try:
+        it = pool.imap_unordered(_call, [(i, fn, tasks[i]) for i in order], chunksize=1)
+        got = 0
+        while got < len(tasks):
+            try:
+                idx, res = it.next(timeout=2.0)
+                out[idx] = res
+                got += 1
+                continue
+            except mp.TimeoutError:
+                pass
+            now = _now()
+            for slot in range(nw):
+                start, bt, idx, case = _read(slot)
+                if start <= 0:
+                    continue
+                if bt > 0 and now - bt > CASE_LIMIT:
+                    hung = (idx, case, f"one evaluation did not return within {CASE_LIMIT:g} s of real time")
+                elif TASK_LIMIT and now - start > TASK_LIMIT:
+                    hung = (idx, case, f"partition did not finish within {TASK_LIMIT:g} s of real time")
+                if hung:
+                    break
+            if hung:
+                break
+    finally:
+        pool.terminate()
+        pool.join()
+        _mm.close()
+        _mm = None
+    if hung:
+        from mc import core
+
+        idx, case, why = hung
+        for i in range(len(tasks)):
+            if out[i] is None:
+                out[i] = core.Part()
+                out[i].capped = True
+        p = out[idx]
+        p.viol("hang", f"hang:{case[:200] or repr(tasks[idx])[:200]}", f"{why}; case in hand: {case or '(not published)'}; partition {tasks[idx]!r:.200}",
+               {"kind": "hang", "case": case, "task": repr(tasks[idx])[:2000]}, size=len(case))
     return out
